@@ -54,6 +54,10 @@ class CFormatter(Formatter):
 
     @override(Formatter)
     def format_comment(self, content: str) -> str:
+        if content.endswith("\\"):
+            # A trailing backslash would splice the next generated line into
+            # this comment.
+            content += " ."
         return f"// {content}"
 
     def format_sizeof(self, t: str) -> str:
